@@ -31,6 +31,18 @@ impl Rep {
     pub fn reopen(&self) -> Melda {
         Melda::new(self.ad.clone()).expect("Melda::new on existing storage")
     }
+    /// an independent replica opened on a copy of this replica's current storage
+    pub fn snapshot(&self) -> Rep {
+        let ad = new_adapter();
+        {
+            let src = self.ad.read().unwrap();
+            let dst = ad.write().unwrap();
+            for k in src.list_objects("").unwrap() {
+                dst.write_object(&k, &src.read_object(&k, 0, 0).unwrap()).unwrap();
+            }
+        }
+        Rep { m: Melda::new(ad.clone()).expect("Melda::new on copied storage"), ad }
+    }
     /// meld from `other` and refresh
     pub fn pull(&mut self, other: &Rep) {
         self.m.meld(&other.m).expect("meld");
